@@ -463,9 +463,13 @@ class Lower:
         return (self.CLS + '_' if self.CLS else '') + name
 
     # ---------- statements
+    REF_LOCALS_AS_COPIES = True     # profiles that write through reference locals must lower them as pointers
+
     def decl(self, v):
         name = v['name']
         t = qt(v)
+        if t.rstrip().endswith('&') and not t.rstrip().endswith('&&') and not re.match(r'^\s*const\b', t) and not self.REF_LOCALS_AS_COPIES:
+            raise Unsupported('non-const reference local %s : %s' % (name, t))
         ctp = self.ctype(t)
         init = [i for i in kids(v) if 'kind' in i]
         self.locals.add(name)
